@@ -18,26 +18,34 @@ pub mod str_vec;
 /// Applies a key-generating function to each element of a vector and yields a vector of
 /// pairs. Each pair consists of a unique key and a vector of all elements of the input
 /// vector which did produce this key by applying the projection function.
-/// The result vector is not sorted.
+/// The groups appear in the order in which their keys first occur in the input, so the result
+/// does not depend on any hash seed.
 pub(crate) fn group_by<P, T, K>(data: &[T], projection: P) -> Vec<(K, Vec<T>)>
 where
     P: Fn(&T) -> K,
     K: Eq + Hash,
     T: Clone,
 {
-    let mut grouping: HashMap<K, Vec<T>> = HashMap::new();
-    data.iter()
-        .fold(&mut grouping, |acc, t| {
-            let key = projection(t);
-            if let Some(vt) = acc.get_mut(&key) {
-                vt.push(t.clone());
-            } else {
-                acc.insert(key, vec![t.clone()]);
-            }
-            acc
-        })
-        .drain()
-        .collect()
+    let mut grouping: Vec<(K, Vec<T>)> = Vec::new();
+    // Maps the hash of a key to the indices of the groups with this hash
+    let mut index: HashMap<u64, Vec<usize>> = HashMap::new();
+    for t in data {
+        let key = projection(t);
+        let hash = {
+            use std::hash::Hasher;
+            let mut hasher = std::collections::hash_map::DefaultHasher::new();
+            key.hash(&mut hasher);
+            hasher.finish()
+        };
+        let candidates = index.entry(hash).or_default();
+        if let Some(i) = candidates.iter().find(|i| grouping[**i].0 == key) {
+            grouping[*i].1.push(t.clone());
+        } else {
+            candidates.push(grouping.len());
+            grouping.push((key, vec![t.clone()]));
+        }
+    }
+    grouping
 }
 
 /// Generates a new unique name avoiding collisions with the names given in the 'exclusions'.
